@@ -22,6 +22,14 @@ CHECKS = [
   "text": _WORKER + " Oracle = exact expected sequence of terminal broker calls per delivery (op, retry counter), body execution counts, "
           "never-after-eager marker, final place, worker survival.",
   "note": _MODEL + _SRV},
+ {"property_id": "C03", "level": "fault_enumeration", "design_ref": "DESIGN.md §4 C03",
+  "technique": "step-indexed fault injection on a deterministic event loop (stop signal / process death at loop step k; Hypothesis-drawn k in quick, every k enumerated in thorough) with a replay-of-completed-calls oracle, 3 brokers",
+  "text": "Crash points are integer event-loop steps, obtained from a dry run of each pooled workload; the worker's own signal handler (or the "
+          "death of its client) is injected at step k. After run() returns and the loop is idle each message must be, consistently with the "
+          "terminal calls that completed, absent / dead / queued exactly once with its retry counter unchanged; Redis recovery is checked "
+          "against take-time + execution timeout with maintenance runs before and after. The thorough tier is exhaustive over all steps of "
+          "the pooled scenarios (not over all workloads).",
+  "note": _MODEL + _SRV + " asyncio has no preemption inside a loop step, so loop steps are the complete set of interleaving points for one process."},
  {"property_id": "C04", "level": "exploration", "design_ref": "DESIGN.md §4 C04",
   "technique": "scenario property-based testing of retry chains against a retry-ladder model plus parameter-level checks of _prepare_retry",
   "text": _WORKER + " Oracle = executions per scheduling, counter seen per attempt, already_tried+1<=N, next_execution_time==now+policy(k) to "
